@@ -20,10 +20,37 @@ type steer struct {
 	n     int
 	// keep: do not Release the garbling afterwards (reuse histories)
 	keep bool
+	// degen: a degenerate label source. 1: all bytes zero, 2: all bytes 0xff,
+	// 3: every label read is all-zero with probability 1/3 (PRNG otherwise),
+	// 4: every label read returns the same 16 bytes, 5: only the first read
+	// (the global offset) is random, all labels zero
+	degen int
+	same  []byte
 }
 
 func (s *steer) Read(p []byte) (int, error) {
 	s.r.Read(p)
+	switch s.degen {
+	case 1:
+		clear(p)
+	case 2:
+		for i := range p {
+			p[i] = 0xff
+		}
+	case 3:
+		if s.n > 0 && s.r.Intn(3) == 0 {
+			clear(p)
+		}
+	case 4:
+		if s.same == nil {
+			s.same = append([]byte(nil), p...)
+		}
+		copy(p, s.same)
+	case 5:
+		if s.n > 0 {
+			clear(p)
+		}
+	}
 	if len(p) == 16 {
 		if s.n < len(s.sbits) && s.sbits[s.n] >= 0 {
 			p[0] = p[0]&0x7f | byte(s.sbits[s.n])<<7
@@ -352,6 +379,13 @@ func runC01One(cs *vrt.Case) {
 				kl = klFixed
 			}
 			st := &steer{r: r.Fork(), keep: r.Intn(3) == 0}
+			if cs.Idx%4 == 1 && rep == reps-1 {
+				// a degenerate label source (all-zero labels, repeated labels):
+				// "every randomness" includes the streams a broken or test
+				// entropy source delivers
+				st.degen = 1 + (cs.Idx/4)%5
+				cs.Count("garblings_with_degenerate_label_source", 1)
+			}
 			if r.Bool() {
 				for i := 0; i <= nin; i++ {
 					st.sbits = append(st.sbits, r.Intn(2))
